@@ -21,7 +21,7 @@
   `stack_entry_eq_walker` ties the last sampled-only piece of C06's model (`stackGlue`, the
   `cfi stack` protocol entry) to the same function.
 -/
-import MdProofs.Lemmas.CfiEnv
+import MdProofs.Lemmas.CfiEnvStack
 import MdProofs.C06Walk
 namespace MdModel.CfiBridge
 open MdModel
@@ -267,6 +267,184 @@ theorem walk_frames_follow_c06 (arch : Walk.Arch) (os : Walk.Os) (w : Walk.World
   subst hf
   exact follows_of_step arch os w mem0 m p f' g hp hstep ht
 
+/-! ## the `cfi stack` protocol entry of C06's model is the walker model's step
+
+  `MdModel.Cfi.stackFrame` (two `walkFrame`s + `stackGlue`) answers the `stack` cases of engine
+  `cfi`, which run the real `walk_stack`; it was the only piece of C06's model without theorems.
+  It computes what the walker model — the model the `walk` engine ties to the same `walk_stack` —
+  computes for frame 1: in-range test of `walk_stack`, `get_caller_by_cfi`, epilogue. -/
+
+/-- a `stack` answer and a frame of the walker model tell the same story: both absent, or a `cfi`
+    frame whose stack pointer / instruction pointer / every other register is valid with the same
+    value, or unknown, on both sides -/
+def StackRel (a : Walk.Arch) : Option Cfi.Caller → Option Walk.Frame → Prop
+  | none, none => True
+  | some c, some f =>
+    f.trust = .cfi ∧ ∃ vs, f.ctx.valid = some vs ∧
+      c.cfa.map UInt64.toNat = viewW a ⟨f.ctx, vs⟩ a.spName ∧
+      c.ra.map UInt64.toNat = viewW a ⟨f.ctx, vs⟩ a.ipName ∧
+      ∀ s, s ≠ a.spName → s ≠ a.ipName → (c.get (utf8 s)).map UInt64.toNat = viewW a ⟨f.ctx, vs⟩ s
+  | _, _ => False
+
+/-- the driver runs `stackFrameO`; it has no panic outcome and equals `stackFrame` -/
+theorem stack_entry_total (r : Cfi.CfiRec) (base : Nat) (w : Cfi.Walker) (spN ipN : Cfi.Name) (sp : Nat)
+    (leaf : Bool) (strip : Option UInt64) :
+    Cfi.stackFrameO r base w spN ipN sp leaf strip = .ok (Cfi.stackFrame r base w spN ipN sp leaf strip) :=
+  stackFrameO_eq r base w spN ipN sp leaf strip
+
+/-- **`stack_entry_eq_walker`** — for every architecture with single-named sp/ip (all but 32-bit
+    ARM; the `stack` cases use x86, amd64, arm64: `spIpOfArch_eq`), every callee frame `p` with a
+    well-formed context, stack memory, module list and symbol records in which record `rec` of
+    module `m` covers `p`'s lookup address: the `stack` entry on `p`'s C06 `Walker` (sp / ip names of
+    the architecture, `leaf` = "ARM/ARM64/MIPS and `p` is the context frame", `strip` = ARM64's
+    pointer-authentication mask) and the walker model's "`p`'s stack pointer is in the stack
+    memory, `get_caller_by_cfi` yields a context, the epilogue accepts it" agree (`StackRel`). -/
+theorem stack_entry_eq_walker (arch : Walk.Arch) (os : Walk.Os) (w : Walk.World) (mem : Walk.Mem)
+    (p : Walk.Frame) (g : Option Walk.Frame) (hok : CtxOk arch p.ctx)
+    (harm : Walk.effArch arch p.ctx ≠ .arm)
+    (k : Nat) (m : Walk.Module) (sf : Walk.SymFile) (j : Nat) (rec : Walk.CfiRec)
+    (hmod : Walk.moduleAt (Walk.modTable w.mods) p.instruction = some k) (hm : w.mods[k]? = some m)
+    (hsf : w.syms[k]? = some (some sf))
+    (hget : RangeMap.get (Walk.cfiTable sf) (p.instruction - m.base) = some j) (hrec : sf.cfis[j]? = some rec) :
+    StackRel (Walk.effArch arch p.ctx)
+      (Cfi.stackFrame (recOf rec) m.base (c06Walker (Walk.effArch arch p.ctx) mem p)
+        (utf8 (Walk.effArch arch p.ctx).spName) (utf8 (Walk.effArch arch p.ctx).ipName) p.ctx.sp
+        ((Walk.effArch arch p.ctx).leafOk && p.trust == .context)
+        (stripOf (Walk.effArch arch p.ctx) (Walk.mkEnv arch os w mem).mask))
+      (if mem.inRange p.ctx.sp then
+        ((Walk.mkEnv arch os w mem).cfi p g).bind fun r => Walk.epilogue (Walk.effArch arch p.ctx) p r .cfi
+       else none) := by
+  obtain ⟨hn1, _, hsome⟩ := mkEnv_cfi_spec arch os w mem p g hok
+  obtain ⟨hsimW, _⟩ := c06Walker_related mem p hok
+  generalize ha : Walk.effArch arch p.ctx = a at *
+  -- the callee's stack pointer is valid on both sides, or on neither
+  have hspv : ((c06Walker a mem p).getCallee (utf8 a.spName)).isNone = !spValid a p.ctx := by
+    have h1 := hsimW.env.reg a.spName
+    have h2 : (⟨a, p.ctx, mem⟩ : Walk.CfiIn).reg a.spName = p.ctx.get a a.spName := rfl
+    have h3 : (c06Walker a mem p).env.reg (utf8 a.spName) = (c06Walker a mem p).getCallee (utf8 a.spName) := rfl
+    rw [h2, h3] at h1
+    rw [spValid_eq]
+    unfold Walk.Ctx.get at h1
+    cases hh : p.ctx.has a a.spName with
+    | true =>
+      rw [hh] at h1
+      cases hg : (c06Walker a mem p).getCallee (utf8 a.spName) with
+      | none => rw [hg] at h1; simp at h1
+      | some v => rfl
+    | false =>
+      rw [hh] at h1
+      cases hg : (c06Walker a mem p).getCallee (utf8 a.spName) with
+      | none => rfl
+      | some v => rw [hg] at h1; simp at h1
+  unfold Cfi.stackFrame
+  rw [hspv]
+  cases hsp : spValid a p.ctx with
+  | false =>
+    simp only [Bool.not_false, if_true]
+    rw [hn1 hsp]
+    simp only [Option.bind_none, ite_self]
+    trivial
+  | true =>
+    simp only [Bool.not_true, Bool.false_eq_true, if_false]
+    obtain ⟨m', hm', _, _, _, hsfc⟩ := hsome k hmod
+    rw [hm] at hm'
+    cases hm'
+    obtain ⟨_, hgetc⟩ := hsfc sf hsf
+    obtain ⟨rec', hrec', _, hmain⟩ := hgetc j hget
+    rw [hrec] at hrec'
+    cases hrec'
+    have hmain := hmain hsp
+    cases hc : Cfi.walkFrame (recOf rec) m.base (c06Walker a mem p) with
+    | none =>
+      rw [hc] at hmain
+      simp only at hmain
+      rw [hmain]
+      simp only [Option.bind_none, ite_self]
+      trivial
+    | some c =>
+      rw [hc] at hmain
+      simp only at hmain
+      obtain ⟨cfa, ra, c', r, vs, h1, h2, h3, h4, h5, _, h7, h8⟩ := hmain
+      obtain ⟨hrsp, hrip⟩ := h8 harm
+      simp only [h1, h2]
+      have hseed : ({ c06Walker a mem p with
+          fwd := Cfi.storeCfaRa (utf8 a.spName) (utf8 a.ipName) (c06Walker a mem p).fwd cfa ra } : Cfi.Walker) =
+          seeded a (c06Walker a mem p) cfa ra := rfl
+      rw [hseed, h3, h4]
+      simp only [Option.bind_some]
+      have hmask := mkEnv_mask_lt arch os w mem
+      have hWmem : (c06Walker a mem p).mem = mem.bytes.toList := rfl
+      have hWbase : (c06Walker a mem p).memBase = mem.base := rfl
+      unfold Cfi.stackOf
+      simp only
+      by_cases hin : mem.inRange p.ctx.sp = true
+      · have hin' : ((c06Walker a mem p).mem.isEmpty || decide ((c06Walker a mem p).memBase + (c06Walker a mem p).mem.length > U64MAX)
+            || decide (p.ctx.sp < (c06Walker a mem p).memBase)
+            || decide (p.ctx.sp > (c06Walker a mem p).memBase + (c06Walker a mem p).mem.length - 1)) = false := by
+          rw [hWmem, hWbase, glue_range, hin]; rfl
+        rw [stackGlue_spec _ _ _ _ _ _ _ hin', if_pos hin]
+        -- raw instruction pointer and stack pointer on both sides
+        have eip : (stripV (stripOf a (Walk.mkEnv arch os w mem).mask) ((c'.get (utf8 a.ipName)).getD ra)).toNat = r.ip := by
+          rw [stripV_paMask a _ hmask, hrip]
+          cases c'.get (utf8 a.ipName) <;> rfl
+        have esp : ((c'.get (utf8 a.spName)).getD cfa).toNat = r.sp := by
+          rw [hrsp]
+          cases c'.get (utf8 a.spName) <;> rfl
+        rw [eip, esp]
+        unfold Walk.epilogue
+        rw [Walk.nullish_eq]
+        by_cases hlow : r.ip < 4096
+        · simp only [hlow, if_true]; trivial
+        · simp only [hlow, if_false]
+          by_cases hprog : (decide (r.sp ≤ p.ctx.sp) && !((a.leafOk && p.trust == Walk.Trust.context) && r.sp == p.ctx.sp)) = true
+          · have : r.sp ≤ p.ctx.sp ∧ (!(a.leafOk && p.trust == Walk.Trust.context && r.sp == p.ctx.sp)) = true := by
+              simpa using hprog
+            simp only [hprog, if_true, this, and_self]
+            trivial
+          · have : ¬ (r.sp ≤ p.ctx.sp ∧ (!(a.leafOk && p.trust == Walk.Trust.context && r.sp == p.ctx.sp)) = true) := by
+              simpa using hprog
+            simp only [hprog, Bool.false_eq_true, if_false, this]
+            refine ⟨rfl, vs, h5, ?_, ?_, ?_⟩
+            · -- stack pointer
+              rw [h7]
+              cases hv : c'.get (utf8 a.spName) with
+              | none => rfl
+              | some v =>
+                simp only [Option.isSome_some, if_true, Option.getD_some, Option.map_some, Option.some.injEq]
+                unfold paMask
+                have n1 : a.spName ≠ "pc" := by cases a <;> decide
+                have n2 : a.spName ≠ "lr" := by cases a <;> decide
+                have n3 : a.spName ≠ "fp" := by cases a <;> decide
+                cases hia : isArm64 a <;> simp [n1, n2, n3]
+            · -- instruction pointer
+              rw [h7]
+              cases hv : c'.get (utf8 a.ipName) with
+              | none => rfl
+              | some v =>
+                simp only [Option.isSome_some, if_true, Option.getD_some, Option.map_some, Option.some.injEq]
+                exact stripV_paMask a _ hmask v
+            · intro s hs1 hs2
+              rw [h7]
+              unfold Cfi.Caller.get
+              simp only
+              rw [lookupName_map_snd _ (regStrip (stripOf a (Walk.mkEnv arch os w mem).mask))]
+              have e1 : utf8 a.ipName ≠ utf8 s := fun e => hs2 (utf8_inj e).symm
+              have e2 : utf8 a.spName ≠ utf8 s := fun e => hs1 (utf8_inj e).symm
+              rw [Cfi.lookupName_erase_ne _ _ _ e1, Cfi.lookupName_erase_ne _ _ _ e2]
+              show Option.map UInt64.toNat (Option.map _ (Cfi.lookupName c'.regs (utf8 s))) =
+                Option.map _ (Option.map UInt64.toNat (Cfi.lookupName c'.regs (utf8 s)))
+              cases Cfi.lookupName c'.regs (utf8 s) with
+              | none => rfl
+              | some v =>
+                simp only [Option.map_some, Option.some.injEq]
+                exact regStrip_paMask a _ hmask s hs2 v
+      · have hout : ((c06Walker a mem p).mem.isEmpty || decide ((c06Walker a mem p).memBase + (c06Walker a mem p).mem.length > U64MAX)
+            || decide (p.ctx.sp < (c06Walker a mem p).memBase)
+            || decide (p.ctx.sp > (c06Walker a mem p).memBase + (c06Walker a mem p).mem.length - 1)) = true := by
+          rw [hWmem, hWbase, glue_range]; simpa using hin
+        rw [stackGlue_out _ _ _ _ _ hout, if_neg hin]
+        trivial
+
 /-! ## non-vacuity: a concrete x86-64 walk whose second frame is found by CFI
 
   One module at `0x400000`, one `STACK CFI INIT` record `[0x1000, 0x1100)` with the rule text of
@@ -410,5 +588,27 @@ example : ∃ (h : 0 + 1 < (Walk.walk (Walk.mkEnv .amd64 .other exWorld exIn.mem
     rw [h1]; rfl
   refine ⟨ht, by rw [h1]; exact hsp, by rw [h1]; show r.ip - 1 = _; rw [hip], ?_⟩
   exact walk_frames_follow_c06 .amd64 .other exWorld exIn.mem (some exIn.mem) exIn.callee exCtx_ok 0 hlen ht
+
+/-- the `stack` entry computed on the example (C06 side, by kernel evaluation): frame 1 has CFA
+    `0x1020`, return address `0x401234`, `rbp` restored, `rbx` forwarded … -/
+example : (Cfi.stackFrame (recOf { addr := 0x1000, size := 0x100, init := exRule, adds := [] }) 0x400000 exW2
+      (utf8 "rsp") (utf8 "rip") 0x1000 false none).map
+      (fun c => (c.cfa, c.ra, c.get (utf8 "rbp"), c.get (utf8 "rbx"), c.get (utf8 "rax"))) =
+    some (some 0x1020, some 0x401234, some 0x2040, some 7, none) := by decide
+
+/-- … and `stack_entry_eq_walker`'s hypotheses hold of it: the answer is related to the walker
+    model's step from the context frame -/
+example : StackRel .amd64
+    (Cfi.stackFrame (recOf { addr := 0x1000, size := 0x100, init := exRule, adds := [] }) 0x400000 exW2
+      (utf8 "rsp") (utf8 "rip") 0x1000 false none)
+    (if exIn.mem.inRange 0x1000 then
+      ((Walk.mkEnv .amd64 .other exWorld exIn.mem).cfi (Walk.Frame.ofCtx exIn.callee .context) none).bind fun r =>
+        Walk.epilogue .amd64 (Walk.Frame.ofCtx exIn.callee .context) r .cfi
+     else none) := by
+  have hk : Walk.moduleAt (Walk.modTable exWorld.mods) 0x401000 = some 0 := by rw [ex_modTable]; decide
+  have hj : RangeMap.get (Walk.cfiTable exSf) (0x401000 - 0x400000) = some 0 := by rw [ex_cfiTable]; decide
+  exact stack_entry_eq_walker .amd64 .other exWorld exIn.mem (Walk.Frame.ofCtx exIn.callee .context) none exCtx_ok
+    (by decide) 0 { base := 0x400000, size := 0x2000, name := "m" } exSf 0
+    { addr := 0x1000, size := 0x100, init := exRule, adds := [] } hk rfl rfl hj rfl
 
 end MdModel.CfiBridge
